@@ -62,6 +62,8 @@ SHAPES = [
     ("twice", lambda: gg.SetMaxLevel(A.GearGroup(3))),
     ("devtype", lambda: led.QueryFeatures(A.GearShort(5))),
     ("dev24", lambda: dg.QueryDeviceStatus(A.DeviceShort(7))),
+    # a query whose answer type comes from a mixin (the five QUERY EXTENDED VERSION NUMBER classes)
+    ("extversion", lambda: led.QueryExtendedVersionNumber(A.GearShort(5))),
 ]
 
 
@@ -438,6 +440,70 @@ def _atx_driver():
     return ATX.SyncDaliHatDriver(port="/dev/verif-no-such-port", LOG=quiet)
 
 
+def h_serial_queue_cancel(ctx, which):
+    """Three callers on a serial driver: A's query is in flight (confirmation after 10 ms, answer 12 ms later), B is queued behind it
+    and is cancelled there, C is issued before A has finished.  A and C must each get their own answer -
+    cancelling a caller that only waits must not let the next one in early."""
+    va, vc = ctx.fresh("va", 0, 255), ctx.fresh("vc", 0, 255)
+    ca = gg.QueryActualLevel(A.GearShort(1))
+    cb = gg.QueryMaxLevel(A.GearShort(2))
+    cc = gg.QueryMinLevel(A.GearShort(3))
+    out = {}
+
+    async def main(loop):
+        d, p, t = (rigs.luba_driver if which == "luba" else rigs.sci_driver)(loop)
+        nwr = {"n": 0}
+
+        def gateway(data):
+            nwr["n"] += 1
+            if which == "luba":
+                nb = data[4] // 8
+                fb = list(data[6:6 + nb])
+                first = fb[0] == 0x03
+                loop.call_later(0.01, p.data_received, rigs.luba_event_tx(nwr["n"], fb))
+                loop.call_later(0.022, p.data_received, rigs.luba_event_rx([va if first else vc]))
+            else:
+                first = data[1] == 0x03
+                loop.call_later(0.01, p.data_received, rigs.sci_frame(0x10, 0, 0, 0))
+                loop.call_later(0.022, p.data_received,
+                                rigs.sci_frame(0x12, 0, 0, va if first else vc))
+        t.on_write = gateway
+        ta = asyncio.ensure_future(d.send(ca))
+        await asyncio.sleep(0.002)
+        tb = asyncio.ensure_future(d.send(cb))
+        await asyncio.sleep(0.002)
+        tb.cancel()
+        await asyncio.sleep(0.002)
+        tc = asyncio.ensure_future(d.send(cc))
+        await asyncio.sleep(3.0)
+        out["a"], out["c"] = ta, tc
+        out["wrote"] = nwr["n"]
+        out["locked"] = d.transaction_lock.locked()
+        for x in (ta, tc):
+            if not x.done():
+                x.cancel()
+    st, r = call(vloop.run, main)
+    tag = "%s/queue-cancel" % which
+    if st == "exc":
+        ctx.fail("harness run raised %r" % (r,), key=tag + "/run-raised:" + type(r).__name__)
+        return "raised"
+    for who, tk, cmd, v in (("A", out["a"], ca, va), ("C", out["c"], cc, vc)):
+        if not tk.done() or tk.cancelled():
+            ctx.fail("caller %s never completed" % who, key=tag + "/hang:" + who)
+            continue
+        if tk.exception() is not None:
+            ctx.fail("caller %s failed with %r" % (who, tk.exception()), key=tag + "/raised:" + who)
+            continue
+        res = tk.result()
+        ok = type(res) is type(cmd).response and res.raw_value is not None and not res.raw_value.error
+        ctx.prove(ok and E.eq(res.raw_value.as_integer, v), "caller %s got %r instead of its own answer" % (who, res),
+                  key=tag + "/answer:" + who)
+    ctx.prove(out["wrote"] == 2, "%d frames written (the cancelled caller's must not go out)" % out["wrote"],
+              key=tag + "/writes")
+    ctx.prove(not out["locked"], "lock left taken", key=tag + "/lock")
+    return "ok"
+
+
 def h_atx_history(ctx):
     """Three commands through one driver object.  The first is a send-twice command that gets only one of its
     two acknowledgement lines (then silence); the second a send-twice command acknowledged twice; the third a
@@ -603,6 +669,8 @@ def cases(tier):
         cs.append(Case("sci-stale-info-%s" % SHAPES[i][0], h_serial,
                        {"which": "sci", "shape": i, "scenario": "stale-info"}))
     cs.append(Case("atx-history", h_atx_history, {}))
+    for which in ("luba", "sci"):
+        cs.append(Case("%s-queue-cancel" % which, h_serial_queue_cancel, {"which": which}))
     for mode in ("inflight", "queued", "abandoned"):
         cs.append(Case("tridonic-pairing-%s" % mode, h_tridonic_pairing, {"mode": mode},
                        install=rigs.install_tridonic_structs))
